@@ -23,6 +23,7 @@ ALPHABET = {
     "echo": "x", "cycle": "1, 2", "increment": "v", "include": "'p'", "render": "'p'", "liquid": "", "#": "c",
     "macro": "m a", "endmacro": "", "call": "m 1", "with": "a: 1", "endwith": "", "block": "b", "endblock": "",
     "translate": "", "plural": "", "endtranslate": "", "nosuch": "z", "endnosuch": "", "end": "",
+    "comment": "some note", "endcomment": "", "raw": "", "endraw": "", "doc": "", "enddoc": "",
 }
 NAMES = list(ALPHABET)
 BLOCKS = ["if", "unless", "case", "for", "tablerow", "capture", "ifchanged", "macro", "with", "block", "translate"]
@@ -44,10 +45,33 @@ def source_of(case) -> str:
     return sep.join("{% " + (n + " " + ALPHABET.get(n, "")).strip() + " %}" for n in case["tags"])
 
 
+def _summary(a) -> dict:
+    return {cat: {k: sorted(sp.index for sp in spans) for k, spans in getattr(a, cat).items()} for cat in ("all_tags", "tags", "unclosed_tags", "unexpected_tags", "unknown_tags")}
+
+
+def eval_inner_tags(case) -> Verdict:
+    """An analysis with a custom inner_tags map must not change what later default analyses report."""
+    v = Verdict()
+    e = env(bool(case.get("extra")))
+    src = source_of(case)
+    before = oc.outcome_of(lambda: _summary(e.analyze_tags_from_string(src)))
+    custom = oc.outcome_of(lambda: _summary(e.analyze_tags_from_string(case["other"], inner_tags=case["inner_tags"])))
+    after = oc.outcome_of(lambda: _summary(e.analyze_tags_from_string(src)))
+    if custom[0] != "ok":
+        v.fail(f"inner-tags:raises:{custom[1]}", f"analyze_tags_from_string({case['other']!r}, inner_tags={case['inner_tags']!r}) raised {oc.short(custom)}")
+    if before != after:
+        v.fail("inner-tags:leaks-into-later-calls", f"default analysis of {src!r} changed after a call with inner_tags={case['inner_tags']!r}:\n   before {before!r:.300}\n   after  {after!r:.300}")
+    v.nontrivial = True
+    v.labels.append("inner-tags-purity")
+    return v
+
+
 def evaluate(case) -> Verdict:
     from liquid.exceptions import LiquidError
     from liquid.token import TOKEN_TAG
 
+    if case.get("kind") == "inner_tags":
+        return eval_inner_tags(case)
     v = Verdict()
     src = source_of(case)
     extra = bool(case.get("extra"))
@@ -191,8 +215,18 @@ def valid_templates(draw):
     return {"src": gg.to_source(gg.Gen(r, prof).template()), "extra": extra}
 
 
+PURITY = [
+    {"kind": "inner_tags", "tags": ["case", "when", "nosuch", "endcase", "nosuch"], "sep": "", "extra": False,
+     "other": "{% case x %}{% when 1 %}{% nosuch z %}{% endcase %}", "inner_tags": {"case": ["when", "else", "nosuch"]}},
+    {"kind": "inner_tags", "tags": ["if", "plural", "endif", "for", "when", "endfor"], "sep": " ", "extra": True,
+     "other": "{% if x %}{% plural %}{% endif %}", "inner_tags": {"if": ["plural"], "for": ["when"]}},
+]
+
+
 def _campaign(ctx: core.Ctx, tier: str, shard: int, nshards: int) -> None:
     quick = tier == "quick"
+    for case in PURITY:  # first, so that anything it leaks shows in everything that follows as well
+        ctx.run(case)
     if quick:
         _enumerate(ctx, shard, nshards, 3, 2)
     else:
@@ -225,7 +259,10 @@ def _finish_kwargs(ctx: core.Ctx, tier: str) -> dict:
         ),
         "exhaustive": True,
         "case_predicates": KNOWN_PREDICATES,
-        "assumptions": ["'parses' means Environment.from_string succeeds in Mode.STRICT in the same environment"],
+        "assumptions": [
+            "'parses' means Environment.from_string succeeds in Mode.STRICT in the same environment",
+            "every shard starts with two calls passing a custom inner_tags map and checks that the default analysis of a fixed source is the same before and after",
+        ],
     }
 
 
